@@ -248,7 +248,12 @@ class C17(Prop):
             p = self.gen_probe(rng.fork("p%d" % i), m, keep)
             p["tag"] = "p%d" % i
             probes.append(p)
-        return {"asset": path, "kind": kind, "mutation": mkind, "what": what, "edits": edits, "process_memory": pm,
+        fn_args = [[["int", 0]], [["int", 1]], [["int", 1500000000]], [["int", 0], ["int", 0]], [["int", 1], ["int", 2]]]
+        for p in probes:
+            for s in p["path"]:
+                if s[0] == "c" and s[1] not in fn_args and all(a[0] in ("int", "bytes") for a in s[1]):
+                    fn_args.append(s[1])
+        return {"asset": path, "kind": kind, "mutation": mkind, "fn_args": fn_args, "what": what, "edits": edits, "process_memory": pm,
                 "layout": layout, "modules": FILE_MODULES, "probes": probes, "keep": keep, "keep_dict": 64,
                 "keep_bytes": 24}
 
@@ -294,8 +299,9 @@ class C17(Prop):
                 continue
             h = {k: c[k] for k in ("asset", "edits", "process_memory", "layout", "modules", "keep", "keep_dict", "keep_bytes")}
             h["op"] = "scan"
-            h["probes"] = [{"tag": p["tag"], "imports": [p["module"]],
+            h["probes"] = [{"tag": p["tag"], "imports": [p["module"]], "use": p["text"],
                             "rule": 'console.log("%s=", %s)' % (p["tag"], p["text"])} for p in c["probes"]]
+            h["fn_args"] = c.get("fn_args", [])
             hc.append(h)
         outs = core.harness_run(ctx.binp, "c17", hc, timeout=1200)
         for c, o in zip(cases, outs):
@@ -309,15 +315,17 @@ class C17(Prop):
                 if len(d.get("o", [])) > 1:
                     ctx.count("published:" + m)
             for p, po in zip(c["probes"], o["probes"]):
-                ctx.count("probe:" + ("rejected" if not po["compiled"] else "defined" if po.get("logs") else "undefined"))
+                ctx.count("probe:" + ("rejected" if not po["compiled"] else "defined" if po.get("logs") else
+                                      "defined-unloggable" if po.get("defined") else "undefined"))
         return outs
 
     # ---------------------------------------------------------------- Coq term
     def g_dump(self, d):
         if d == "undef":
             return "DUndefined"
-        if d == "fn":
-            return "DFunction"
+        if "fn" in d:
+            return "(DFunction %s)" % glist(
+                gpair(glist(self.g_prim(a[0], a[1]) for a in args), gopt(r, self.g_dump)) for args, r in d["fn"])
         if d == "re":
             return "DRegex"
         if "i" in d:
@@ -396,6 +404,8 @@ class C17(Prop):
                 obs = "(Some (PBytes %s))" % gbytes(unescape_default(txt)[:keep_bytes])
             else:
                 obs = "(Some (PRegex 1))"     # something was logged where the declared type is not loggable
+        elif po.get("defined"):
+            obs = "(Some (PRegex 1))"         # defined, but console.log could not print it (boolean / regex)
         return gpair(gstr(p["module"]), "{| p_path := %s; p_exprs := %s; p_compiled := %s; p_observed := %s |}" % (
             glist(path), glist(exprs), gbool(po["compiled"]), obs))
 
